@@ -71,7 +71,7 @@ PROPS = {
                 "differs from the reference run",
     },
     "C09": {
-        "apalache": APA_LOOP, "driver": "c09", "level": "model_checking", "mc": [MC_LAYER, MC_CALL],
+        "apalache": APA_LOOP, "tlaps": ["ShapeLemmas.tla"], "driver": "c09", "level": "model_checking", "mc": [MC_LAYER, MC_CALL],
         "rule": "every (planner kind, f32/f64, n, entry point, shape class): data in {n,kn,1,n-1,n+1,2n-1,2n+1,kn-1,kn+1,0}, output off by 1/n, scratch in "
                 "{0,adv-1,adv,adv+1}; the verdict Well/Ill is computed by TLC from the logged lengths; every case is non-trivial",
     },
